@@ -41,7 +41,7 @@ let main = null
 
 module.exports = mk({
   id: 'C12',
-  families: ['A', 'B', 'C', 'M', 'S', 'T', 'Q', 'R'],
+  families: ['A', 'B', 'C', 'M', 'S', 'T', 'Q', 'R', 'N', 'L'],
   familyOpts: (tier) => ({ B: { k: tier === 'thorough' ? 2 : 1 } }),
   extra: async (tier) => {
     const dims = [
